@@ -120,6 +120,17 @@ def directed_cases():
                 "call lib_shutdown", "end"])
     # a handle opened with a smaller size than the segment (more than a page smaller): finding F5
     out.append(["begin", "call lib_init", "call shm_new 0 1 1 x", "call shm_new 1 1 0 x", "call shm_free 1", "call shm_free 0", "call lib_shutdown", "end"])
+    # a close interrupted by a handled signal (scripted -1/EINTR; the kernel has released the descriptor): closed exactly once.
+    # Only closes after which the library does not use the descriptor again by its own logic (free of an open socket, the
+    # shm_open descriptor inside p_shm_new, a refused connect's socket) — an explicit p_socket_close that reports the failure
+    # leaves the decision to the caller and is not judged here.
+    out.append(["begin", "call lib_init", "call sock_new 0 0 12", "call sysfail close", "call sock_free 0", "call sock_new 1 1 12", "call sysfail close",
+                "call sock_free 1", "call sock_new 2 0 12", "call sock_connect_refused 2 12", "call sysfail close", "call sock_free 2", "call err_free 12",
+                "call lib_shutdown", "end"])
+    out.append(["begin", "call lib_init", "call sysfail close", "call shm_new 0 1 0 x", "call shm_free 0", "call sysfail close", "call shmbuf_new 1 2 0 x",
+                "call shmbuf_free 1", "call sock_new 2 0 12", "call sock_listen 2 12", "call sock_new 3 0 12", "call sock_connect 3 2 12",
+                "call sock_accept 2 4 12", "call sysfail close", "call sock_free 4", "call sysfail close", "call sock_free 3", "call sysfail close",
+                "call sock_free 2", "call err_free 12", "call lib_shutdown", "end"])
     out.append(["begin", "call lib_init", "call lib_shutdown", "call lib_init", "call cur_thread", "call lib_shutdown", "call lib_init",
                 "call tls_new 0", "call tls_set 0", "call thread_run 1 1 1 0", "call thread_run 2 0 1 0", "call thread_unref 2", "call thread_unref 1",
                 "call tls_free 0", "call lib_shutdown", "end"])
